@@ -131,7 +131,8 @@ class Contract:
     def __init__(self, key, params, returns=None, requires=(), ensures=(), loops=None,
                  modifies=(), raises=None, inline=False, yields=None, props=(), cases=None,
                  ghost=None, domain=None, canaries=(), notes="", rt=None, views=None,
-                 may_raise=(), pure=True, lemmas=(), wrapper_of=None, trusted=False, unroll=None):
+                 may_raise=(), pure=True, lemmas=(), wrapper_of=None, trusted=False, unroll=None,
+                 bounded=False, checks=(), call=None, gen=None):
         self.key = key
         self.params = params            # ordered dict name -> T   (python >= 3.7 dicts)
         self.returns = returns          # T of the result (None = no value)
@@ -156,6 +157,17 @@ class Contract:
         self.wrapper_of = wrapper_of
         self.trusted = trusted          # contract assumed, body not verified (listed in evidence)
         self.unroll = unroll or {}
+        # bounded tier: the function is outside the deductive subset; its contract is checked at run time only
+        # (exhaustive small scope + seeded random inputs) and is never counted as proved.  Such a contract may
+        # carry executable-only clauses: checks=[(label, f(args: dict, result, old: dict) -> None | message)],
+        # call=f(fn, args) -> result  (how to invoke: defaults to fn(**args)),
+        # gen=f(rng, tier, i) -> args dict of *real* objects (bypasses the JSON recipe layer; replay re-generates by seed)
+        self.bounded = bounded or bool(checks) and not ensures and False
+        self.checks = list(checks)
+        self.call = call
+        self.gen = gen
+        if bounded:
+            self.trusted = True
 
 
 def contract(key, **kw):
